@@ -10,14 +10,16 @@ def run(ctx):
     modes = [("symtab", dict(ldflags="-s=false")), ("default", dict(ldflags=None)),
              ("stripped", dict(ldflags="-s -w")), ("pie", dict(ldflags="-s=false", buildmode="pie")),
              ("piestripped", dict(ldflags="-s -w", buildmode="pie")),
-             ("external", dict(ldflags="-s=false -linkmode=external"))]
+             ("external", dict(ldflags="-s=false -linkmode=external")),
+             ("externalstripped", dict(ldflags="-s -w -linkmode=external")),
+             ("pieexternal", dict(ldflags="-s=false -linkmode=external", buildmode="pie"))]
     runs = []
     for mode, kw in modes:
         try:
             binary = ctx.build_test("zzverif/drv", ["drv"], name="drv_" + mode, **kw)
         except vlib.Broken as e:
-            if mode == "external":
-                ctx.note("link mode external not built (no C toolchain?): " + str(e)[-200:])
+            if "external" in mode:
+                ctx.note("link mode %s not built (no C toolchain?): %s" % (mode, str(e)[-200:]))
                 continue
             raise
         runs.append((mode, binary, {}))
